@@ -35,6 +35,7 @@ class RegexCompiler:
         self.multiline = "m" in flags
         self.ignorecase = "i" in flags
         self.dotall = "s" in flags
+        self._backward = False  # True while compiling the body of a lookbehind
 
     def compile(self, ast: Node, capture_count: int) -> List[Tuple]:
         """
@@ -223,13 +224,20 @@ class RegexCompiler:
 
     def _compile_group(self, node: Group):
         """Compile capturing/non-capturing group."""
+        # Right-to-left (inside a lookbehind) the matcher meets the end of the
+        # group first
+        first, last = (
+            (Op.SAVE_END, Op.SAVE_START)
+            if self._backward
+            else (Op.SAVE_START, Op.SAVE_END)
+        )
         if node.capturing:
-            self._emit(Op.SAVE_START, node.group_index)
+            self._emit(first, node.group_index)
 
         self._compile_node(node.body)
 
         if node.capturing:
-            self._emit(Op.SAVE_END, node.group_index)
+            self._emit(last, node.group_index)
 
     def _compile_lookahead(self, node: Lookahead):
         """Compile lookahead assertion."""
@@ -238,7 +246,10 @@ class RegexCompiler:
         else:
             split_idx = self._emit(Op.LOOKAHEAD_NEG, 0)
 
+        outer_direction = self._backward
+        self._backward = False  # a lookahead always reads left-to-right
         self._compile_node(node.body)
+        self._backward = outer_direction
         self._emit(Op.LOOKAHEAD_END)
 
         # Patch the jump target
@@ -253,7 +264,10 @@ class RegexCompiler:
         else:
             split_idx = self._emit(Op.LOOKBEHIND_NEG, 0)
 
+        outer_direction = self._backward
+        self._backward = True  # the body is matched right-to-left
         self._compile_node(node.body)
+        self._backward = outer_direction
         self._emit(Op.LOOKBEHIND_END)
 
         # Patch the jump target
@@ -262,8 +276,9 @@ class RegexCompiler:
         self._patch(split_idx, instr[0], end_offset)
 
     def _compile_alternative(self, node: Alternative):
-        """Compile sequence of terms."""
-        for term in node.terms:
+        """Compile sequence of terms (in reverse inside a lookbehind)."""
+        terms = reversed(node.terms) if self._backward else node.terms
+        for term in terms:
             self._compile_node(term)
 
     def _compile_disjunction(self, node: Disjunction):
